@@ -388,6 +388,8 @@ LOOKALIKES = [
     "if (real_x > 0) integer_fn(1) = 3", "print *, 'integer :: fake, real :: also_fake'", "allocate(integer_fn(4))",
     "external_n = 19", "intent_n = 20", "optional_n = 21", "pointer_n = 22", "target_n = 23", "block_n = 24",
     "enum_n = 25", "program_n = 26", "submodule_n = 27", "type_n = 28", "abstract_n = 29", "import_n = 30", "implicit_n = 31",
+    # variables whose name is a whole keyword
+    "include = 32", "include (2) = 33", "format = 34", "call = 35", "stop = 36", "contains = 37", "end = 38", "data = 39",
 ]
 
 
@@ -397,9 +399,9 @@ def build_lookalike(case):
              "interface_id", "module_v", "function_value", "subroutine_n", "common_factor", "namelist_len", "final_result",
              "generic_n", "contains_flag", "end_index", "public_n", "private_n", "dimension_n", "parameter_n", "save_n",
              "external_n", "intent_n", "optional_n", "pointer_n", "target_n", "block_n", "enum_n", "program_n", "submodule_n",
-             "type_n", "abstract_n", "import_n", "implicit_n"]
+             "type_n", "abstract_n", "import_n", "implicit_n", "format", "call", "stop", "contains", "end", "data"]
     decls = [Var(n, "integer") for n in names]
-    decls += [Var("integer_fn", "integer", shape="(5)"), Var("character_pos", "char", shape="(3)"), Var("type_v", "type")]
+    decls += [Var("include", "integer", shape="(3)"), Var("integer_fn", "integer", shape="(5)"), Var("character_pos", "char", shape="(3)"), Var("type_v", "type")]
     body = list(stmts)
     if host == "program":
         u = Unit("program", "m", items=[Fixed(TypeDef("tname", comps=[Var("tc", "integer")]))] + [Fixed(VarItem(d)) for d in decls], body=body)
@@ -486,7 +488,10 @@ def build_inc(case):
     return sfs
 
 
-def to_include(text):
+INCLUDE_SPELLINGS = ["  include 'decls.inc'", "  INCLUDE 'decls.inc'", "  include'decls.inc'", '  include "decls.inc"', "      Include   'decls.inc'"]
+
+
+def to_include(text, spelling=0):
     """move the lines between the module statement (+ implicit none) and CONTAINS into an include file"""
     L = text.rstrip("\n").split("\n")
     start = 1
@@ -495,14 +500,14 @@ def to_include(text):
             start = i + 1
             break
     end = next(i for i, l in enumerate(L) if l.strip().lower() == "contains")
-    return "\n".join(L[:start] + ["  include 'decls.inc'"] + L[end:]) + "\n", "\n".join(L[start:end]) + "\n"
+    return "\n".join(L[:start] + [INCLUDE_SPELLINGS[spelling]] + L[end:]) + "\n", "\n".join(L[start:end]) + "\n"
 
 
 def gen_inc(tier):
     ks = [k for k in SPEC_KEYS if k not in ("generic-modproc", "operator", "assignment", "fulltype")]
     for mode in ("two-dirs", "one-dir-one-incdir", "inline"):
         for k1, k2 in itertools.product(ks, ks):
-            yield (("inc", mode, k1, k2), 0 if tier == "quick" else 1)
+            yield (("inc", mode, k1, k2), 1 if (tier != "quick" or (k1, k2) == ("var", "var")) else 0)
 
 
 BUILDERS = {"inc": build_inc, "atom": build_atom, "shape": build_shape, "lookalike": build_lookalike, "files": build_files}
@@ -525,7 +530,7 @@ def run_case(st: Stats, case, bound):
                 if case[1] == "inline":
                     files[f"src/{d}/{one.name}"] = text
                     continue
-                main, inc = to_include(text)
+                main, inc = to_include(text, ch.choose("include-spelling", len(INCLUDE_SPELLINGS)) if ch is not None else 0)
                 files[f"src/{d}/{one.name}"] = main
                 # both include files carry the same name; the second one lives beside its source or in the include directory
                 files[f"src/{d}/decls.inc" if (case[1] == "two-dirs" or d == "a") else "inc/decls.inc"] = inc
